@@ -136,20 +136,25 @@ func (s *MultipartReply) UnmarshalBinary(data []byte) error {
 		var repl util.Message
 		switch s.Type {
 		case MultipartType_Aggregate:
-			repl = new(AggregateStats)
+			repl = NewAggregateStats()
 		case MultipartType_Desc:
-			repl = new(DescStats)
+			repl = NewDescStats()
 		case MultipartType_Flow:
-			repl = new(FlowStats)
+			repl = NewFlowStats()
 		case MultipartType_Port:
-			repl = new(PortStats)
+			repl = NewPortStats()
 		case MultipartType_Table:
-			repl = new(TableStats)
+			repl = NewTableStats()
 		case MultipartType_Queue:
-			repl = new(QueueStats)
-		// FIXME: Support all types
-		case MultipartType_Experimenter:
-			break
+			repl = &QueueStats{pad: make([]byte, 2)}
+		case MultipartType_PortDesc:
+			repl = NewPhyPort()
+		}
+		if repl == nil {
+			return fmt.Errorf("unsupported MultipartReply type: %d", s.Type)
+		}
+		if int(n)+int(repl.Len()) > len(data) {
+			return fmt.Errorf("the []byte is too short to unmarshal a MultipartReply body of type %d", s.Type)
 		}
 
 		err = repl.UnmarshalBinary(data[n:])
